@@ -174,6 +174,10 @@ LEDGER_STATEMENTS = [
     ('SELECT LENGTH(account), Upper(account), account FROM #postings', ['LENGTH(account)', 'Upper(account)', 'account']),
     ('SELECT SUBST(account, "Cash", "CASH"), \'usd\', \'USD\', number FROM #postings', ['SUBST(account, "Cash", "CASH")', "'usd'", "'USD'", 'number']),
     ('SELECT account, SUM(position), Count(*), number IS NOT NULL GROUP BY account, 4', ['account', 'SUM(position)', 'Count(*)', 'number IS NOT NULL']),
+    # aliases are kept as written (lower-cased): trailing and leading underscores, digits
+    ('SELECT account AS acct_, sum(number) AS total_, count(*) AS _n, max(date) AS d__2 GROUP BY acct_ ORDER BY total_', ['acct_', 'total_', '_n', 'd__2']),
+    ('SELECT number AS x, number + 1 AS x_, number + 2 AS x__ FROM #postings', ['x', 'x_', 'x__']),
+    ("SELECT '', account, \"\", ' ' FROM #postings", ["''", 'account', '""', "' '"]),
     ('SELECT payee ~ "ACME", payee ~ "acme", "Trip" IN tags FROM #transactions', ['payee ~ "ACME"', 'payee ~ "acme"', '"Trip" IN tags']),
 ]
 
